@@ -4,8 +4,8 @@
    [fmt] is names.format_name and [cw] the charwidths table: every theorem holds for all of them.
    [rec]/[wh] (how nested code and while$ loops are run) are universally quantified in the
    per-built-in laws; [exec n] / [while_loop n] are the instances the interpreter uses. *)
-From Pybtex Require Import Base.Prelude Base.PyChar Base.PyStr Model.BibtexStr Model.Wrap Model.Bst
-  Spec.BstSem Spec.BstDoc Spec.BstTyping Proofs.Bst Proofs.BstSort Proofs.BstSem Proofs.BstLaws Proofs.BstTyping Proofs.BstOrder Proofs.BstDoc.
+From Pybtex Require Import Base.Prelude Base.PyChar Base.PyStr Model.BibtexStr Model.Wrap Model.Names Model.NameFormat Model.Bst Model.BstReal
+  Spec.BstSem Spec.BstDoc Spec.BstTyping Proofs.Bst Proofs.BstSort Proofs.BstSem Proofs.BstLaws Proofs.BstTyping Proofs.BstOrder Proofs.BstDoc Proofs.BstReal.
 From Coq Require Import Permutation Sorted.
 
 (* --- more fuel never changes the outcome of a run that ended (normally or with an error) *)
@@ -440,6 +440,29 @@ Theorem welltyped_no_crash : forall fmt cw G ent cf s p s',
 Proof. exact Proofs.BstTyping.welltyped_no_crash. Qed.
 Print Assumptions welltyped_no_crash.
 
+(* --- the interpreter with format.name$ computed by C11's validated model of names.py (Model/BstReal.v:
+       [real_fmt] = NameFormat.format_name): on string operands the built-in is exactly C11's format_name_n, the
+       function Props/C11.v proves the tie / abbreviation / grammar rules about (both errors are BibTeX errors) *)
+Theorem format_name_law_real : forall cw rec wh st f k names r,
+  st_stack st = VStr f :: VInt k :: VStr names :: r ->
+  match NameFormat.format_name_n names k f with
+  | Ok (t, _) => builtin_step real_fmt cw rec wh B_format_name st = Ok (set_stack st (VStr t :: r))
+  | PyErr _ _ => exists c l, builtin_step real_fmt cw rec wh B_format_name st = PyErr c l
+  | Crash => builtin_step real_fmt cw rec wh B_format_name st = Crash
+  | OutOfFuel => builtin_step real_fmt cw rec wh B_format_name st = OutOfFuel
+  end.
+Proof. exact Proofs.BstReal.format_name_law_real. Qed.
+Print Assumptions format_name_law_real.
+
+(* type soundness without any hypothesis about name formatting (C11's format_name_no_crash) *)
+Theorem welltyped_no_crash_real : forall cw G ent cf s p s',
+  ctx_ok G = true -> check G ent cf s p = Some s' ->
+  forall n st, state_ok G ent st -> sabs (st_stack st) s ->
+  exec_real cw n st p <> Crash /\
+  (forall st', exec_real cw n st p = Ok st' -> state_ok G ent st' /\ sabs (st_stack st') s').
+Proof. exact Proofs.BstReal.welltyped_no_crash_real. Qed.
+Print Assumptions welltyped_no_crash_real.
+
 Theorem state_ok_start : forall G st, ctx_ok G = true -> st_vars st = G -> st_evars st = [] -> st_buf st = [] ->
   state_ok G false st.
 Proof. exact Proofs.BstTyping.state_ok_start. Qed.
@@ -564,3 +587,13 @@ Proof.
   eapply BS_builtin with (b := B_minus); [vm_compute; reflexivity|reflexivity|].
   apply D_minus. reflexivity.
 Qed.
+
+(* the real formatter at work inside the interpreter: a forced tie ~~ stays a tie, a discretionary ~ after a long
+   part becomes a space *)
+Example format_name_real_example :
+  option_map st_stack (match exec_real cw0 20 st0
+     [IStr (s2l "Donald Ervin Knuth"); IInt 1; IStr (s2l "{ff~~}{ll}"); IId (s2l "format.name$");
+      IStr (s2l "Donald Ervin Knuth"); IInt 1; IStr (s2l "{ff~}{ll}"); IId (s2l "format.name$")]
+   with Ok s => Some s | _ => None end)
+  = Some [VStr (s2l "Donald~Ervin Knuth"); VStr (s2l "Donald~Ervin~Knuth")].
+Proof. vm_compute. reflexivity. Qed.
